@@ -220,7 +220,7 @@ func (p *planner) pairFamilies(fns []string, n int) {
 		switch g.R.Intn(3) {
 		case 0:
 			for len(P) < L {
-				P = append(P, "aAbBzZ09"[g.R.Intn(8)])
+				P = append(P, "aAbBzZ09[{@`"[g.R.Intn(12)])
 			}
 		case 1:
 			P = g.Pad(L, 1, nil)
@@ -237,6 +237,16 @@ func (p *planner) pairFamilies(fns []string, n int) {
 				}
 			}
 		}
+		// one byte differing by exactly 0x20 whatever its class: a letter's other case (still equal) or a
+		// non-letter neighbour such as '[' / '{' (no longer equal) — what a word-at-a-time `|0x20` trick confuses
+		nearFold := false
+		if g.R.Intn(3) == 0 && len(P2) > 0 {
+			j := g.R.Intn(len(P2))
+			if P2[j] < 0x80 {
+				P2[j] = P[j] ^ 0x20
+				nearFold = true
+			}
+		}
 		sib := [][2]string{{"é", "ê"}, {"é", "É"}, {"\u212a", "\u212b"}, {"\u212a", "k"}, {"𐐀", "𐐁"}, {"𐐀", "𐐨"}, {"a", "b"}, {"世", "丗"},
 			{"ß", "ẞ"}, {"ſ", "s"}, {"ſ", "ž"}, {"я", "Я"}, {"я", "ю"}, {"", "x"}, {"é", ""}, {"é", "é"}}[g.R.Intn(16)]
 		x, y := []byte(sib[0]), []byte(sib[1])
@@ -246,6 +256,11 @@ func (p *planner) pairFamilies(fns []string, n int) {
 		tailS, tailT := g.Str(g.R.Intn(2)), g.Str(g.R.Intn(2))
 		if g.R.Intn(2) == 0 {
 			tailT = tailS
+		}
+		if nearFold && g.R.Intn(4) > 0 {
+			// make that byte the only thing that decides
+			y = g.Recase(x)
+			tailT = g.Recase(tailS)
 		}
 		var s, t []byte
 		if g.R.Intn(3) > 0 {
@@ -259,6 +274,51 @@ func (p *planner) pairFamilies(fns []string, n int) {
 			continue
 		}
 		p.pair(fns, gen.Pair{S: s, T: t})
+	}
+	// a match that starts exactly at, just before or just after a power-of-two offset of a long haystack, its first
+	// code point written as the widest member of its orbit: what a search in fixed-size windows or chunks must not
+	// skip or split (mirrored for the searches from the end)
+	p.fam = "window-edges"
+	for i := 0; i < n/3; i++ {
+		Ls := []int{32, 64, 128, 256, 512, 1024, 2048, 4096}
+		if g.Scale == 1 {
+			Ls = Ls[:6] // the quick tier stops at 1024
+		}
+		L := Ls[g.R.Intn(len(Ls))]
+		d := g.R.Intn(7) - 3
+		if L+d < 0 {
+			d = 0
+		}
+		first := []string{"k", "s", "ß", "å", "ω", "é", "ɐ", "x", "世"}[g.R.Intn(9)]
+		o := gen.Orbit([]rune(first)[0])
+		wide := o[0]
+		for _, r := range o {
+			if utf8.RuneLen(r) > utf8.RuneLen(wide) {
+				wide = r
+			}
+		}
+		rest := []string{"@", "ey", "b1", "", "k", "\u212a"}[g.R.Intn(6)]
+		needle := []byte(string(o[g.R.Intn(len(o))]) + rest)
+		hit := []byte(string(wide) + rest)
+		fill := byte(" _0"[g.R.Intn(3)])
+		pad := make([]byte, L+d)
+		for j := range pad {
+			pad[j] = fill
+		}
+		tail := g.Pad([]int{0, 1, 7, 40, 300}[g.R.Intn(5)], 0, nil)
+		var s []byte
+		if g.R.Intn(3) > 0 {
+			s = append(append(append(s, pad...), hit...), tail...)
+			if g.R.Intn(3) == 0 {
+				s = append(append(s, needle...), 'x')
+			}
+		} else {
+			s = append(append(append(s, tail...), hit...), pad...)
+		}
+		if g.R.Intn(5) == 0 {
+			s = append([]byte("x"), s...)
+		}
+		p.pair(fns, gen.Pair{S: s, T: needle})
 	}
 	// ill-formed input only: one argument holds a multi-byte code point, the other a proper prefix of its
 	// encoding followed by something that is not the right continuation (ASCII, a bad byte, another lead byte,
